@@ -1716,6 +1716,7 @@ pub fn walk(e: &Expr, f: &mut dyn FnMut(&Expr)) {
             for s in stmts {
                 match s {
                     Stmt::Let(_, _, e) | Stmt::Expr(e, _) => walk(e, f),
+                    Stmt::Raw(_) => {}
                 }
             }
             if let Some(x) = fin {
